@@ -13,6 +13,8 @@ Ltac munf := unfold timer_reset in *; unfold bind, ret, get, modify, emit, lift,
 (* split on the innermost scrutinee of a match / if (a term that itself contains no match) *)
 Ltac tie_split1 :=
   match goal with
+  (* a scrutinee that was already split (the two sides often expose the same call at different moments): reuse its equation *)
+  | H : ?x = _ |- context [match ?x with _ => _ end] => rewrite H
   | |- context [match ?x with _ => _ end] =>
       lazymatch x with
       | context [match _ with _ => _ end] => fail
